@@ -61,6 +61,7 @@ namespace vf
       bool custom_tags = true;
       bool depth_surfaces = false;     // point-wise min/max depth of area features
       bool water = false;              // tian water content models
+      bool sections = true;            // slabs/faults may carry per-coordinate section overrides
       bool any_gravity_sign = false;   // gravity magnitude may be zero or negative (C03: 'arbitrary gravity magnitude')
       double hub_spread_km = 300;      // features are centred within this distance of a common hub
       bool top_truncation = true;      // slabs may have a top truncation
@@ -509,6 +510,23 @@ namespace vf
       if (m.dmin != 0) feat["min depth"] = m.dmin;
       double tl = 0, mt = 0;
       feat["segments"] = segments_json(ch, type, tl, mt, 0, o.top_truncation);
+      // sections: per-coordinate overrides of the segment table (same number of segments)
+      if (o.sections && ch.chance(35))
+        {
+          J secs = J::arr();
+          const size_t nseg = feat["segments"].size();
+          for (size_t i = 0; i < m.coords.size(); ++i)
+            if (ch.chance(45))
+              {
+                J s = J::obj();
+                s["coordinate"] = static_cast<int>(i);
+                double tl2 = 0, mt2 = 0;
+                s["segments"] = segments_json(ch, type, tl2, mt2, static_cast<int>(nseg), o.top_truncation);
+                tl = std::max(tl, tl2); mt = std::max(mt, mt2);
+                secs.push(s);
+              }
+          if (secs.size()) feat["sections"] = secs;
+        }
       m.reach = tl + mt;
       m.dmax = m.dmin + m.reach;
       add_models(ch, f, o, m, feat);
